@@ -10,6 +10,7 @@ package main
 // message's address, headers or payload into the next one.
 
 import (
+	"fmt"
 	"go/ast"
 	"go/token"
 	"go/types"
@@ -247,4 +248,74 @@ func isParamVar(info *types.Info, ft *ast.FuncType, v *types.Var) bool {
 		}
 	}
 	return false
+}
+
+// ruleNoSharedMaps (C20): every map a decoder / converter / constructor hands out (tags, headers,
+// promise tags) is the caller's own: no function of the data and store packages returns, or puts
+// into an object it returns, a package-level map. A shared "empty map" is written by the first
+// caller that adds an entry (the schedule sweep stamps its marker tags into the decoded promise
+// tags) and from then on shows up in every object that was given the same map.
+func ruleNoSharedMaps(c *Ctx) {
+	n := 0
+	for path, pk := range c.P.ByPath {
+		if !strings.HasPrefix(path, modPath+"/pkg/") && !strings.HasPrefix(path, modPath+"/internal/") {
+			continue
+		}
+		if strings.HasPrefix(path, modPath+"/pkg/client") || strings.Contains(path, "/test") || strings.HasSuffix(path, "/pb") || strings.HasSuffix(path, "/dst") || strings.Contains(path, "/cmd") {
+			continue
+		}
+		info := pk.TypesInfo
+		isSharedMap := func(e ast.Expr) (types.Object, bool) {
+			id, ok := ast.Unparen(e).(*ast.Ident)
+			if !ok {
+				return nil, false
+			}
+			v, ok := info.Uses[id].(*types.Var)
+			if !ok || v.Pkg() == nil || v.Parent() != v.Pkg().Scope() {
+				return nil, false
+			}
+			if _, isMap := v.Type().Underlying().(*types.Map); !isMap {
+				return nil, false
+			}
+			return v, true
+		}
+		for _, fd := range allFuncDecls(pk) {
+			if fd.Body == nil || isTestFile(c.P, fd.Pos()) {
+				continue
+			}
+			occ := map[string]int{}
+			ast.Inspect(fd.Body, func(nd ast.Node) bool {
+				var exprs []ast.Expr
+				switch x := nd.(type) {
+				case *ast.ReturnStmt:
+					exprs = x.Results
+				case *ast.KeyValueExpr:
+					exprs = []ast.Expr{x.Value}
+				case *ast.AssignStmt:
+					// x.F = sharedMap
+					for i, l := range x.Lhs {
+						if _, isSel := ast.Unparen(l).(*ast.SelectorExpr); isSel && i < len(x.Rhs) {
+							exprs = append(exprs, x.Rhs[i])
+						}
+					}
+				default:
+					return true
+				}
+				for _, e := range exprs {
+					n++
+					if v, shared := isSharedMap(e); shared {
+						key := fmt.Sprintf("shared-map/%s.%s/%s", pk.Name, funcName(fd), v.Name())
+						occ[key]++
+						if occ[key] > 1 {
+							key += fmt.Sprintf("#%d", occ[key])
+						}
+						c.bad(key, e.Pos(), fmt.Sprintf("%s hands out the package-level map %s: every object given it shares one map, and the first writer (marker tags, defaults) changes them all — data the client never sent appears in stored and returned objects", funcName(fd), v.Name()))
+					}
+				}
+				return true
+			})
+		}
+	}
+	c.count("values_handed_out", n)
+	c.floor("returned / stored values inspected for shared maps", n, 500)
 }
